@@ -2,3 +2,13 @@ NA_REASONS = {}
 add("C05", "property-based differential testing against a native-Go reference evaluator (rapid)",
     "Generated typed expression trees (depth<=4) over the full operator set with operands from int64/float64/string edge pools are evaluated by anko and by a reference evaluator written with Go's own int64/float64 operators; value, dynamic type and error-presence must agree. Exploration: held on every generated case.",
     "Trusted: Go arithmetic as the specification, the tree printer (fully parenthesised), rapid. Only operand-kind combinations the statement defines are asserted.")
+MODEL_NOTE = "Trusted: the reference interpreter internal/prog/model.go (written from the statements, never sees anko's parser/ast), the printer (fully parenthesised), rapid. Under-specified choices (loop scope per loop or per iteration, try/catch/finally sharing one scope, finally after an abruptly exiting catch) are accepted either way. Programs that leave the specified domain are excluded and counted."
+add("C04", "model-based property testing: generated programs vs an independent reference interpreter (rapid)",
+    "Constructively generated, terminating programs nesting every block kind with assignments, var declarations, reads, existence probes, closures (incl. escaping ones), modules and recursion over a 4-name pool are run by anko and by a reference interpreter; the probe trace, result, error status and the final top-level bindings must agree. Exploration: held on every generated program.",
+    MODEL_NOTE)
+add("C08", "model-based property testing: generated programs vs an independent reference interpreter (rapid)",
+    "Generated terminating programs nesting if/else-if/else, switch, the four loop forms and functions with break/continue/return at every position and conditions from every truthiness class are run by anko and by the reference interpreter; trace, result and error status must agree. Signals leaving a try body are the known finding F-try-signal (reproduced from three committed replays, excluded from generation).",
+    MODEL_NOTE)
+add("C09", "model-based property testing: generated programs vs an independent reference interpreter (rapid)",
+    "Generated programs nesting try/catch/finally, throw, runtime errors and functions with deferred calls (host probes, script functions, closure literals that raise or nest try/defer) are run by anko and by the reference interpreter; trace (order and multiplicity of every probe, incl. deferred ones), result, error presence and thrown-error text must agree.",
+    MODEL_NOTE)
